@@ -822,6 +822,12 @@ func c13(c *core.Ctx) {
 		}
 		c.EndRule()
 	}
+
+	// ---------------------------------------------------------------- R6 (shared)
+	// the credentials of a call are that call's: what a call collects from its options is not kept in (or recycled
+	// through) a long-lived object for another call to find (C01/R1) — a pooled options struct whose credentials
+	// field is not reset sends one caller's token with another caller's request
+	c.Borrow("C01", map[string]string{"R1": "R6"}, c01)
 }
 
 // mustCallRoundTrip: fn (or a static callee, depth ≤ 2) invokes RoundTrip.
